@@ -173,3 +173,45 @@ func VerifC01TwoEncodes(l1, l2 int) {
 	}
 	verifReach("end")
 }
+
+// VerifC01NamesAndOptions: server name of snl and boot file name of fl non-NUL bytes TOGETHER WITH
+// options of symbolic codes (1..254, distinct) and symbolic values of l1, l2 bytes (a negative
+// length leaves that option out): header names and options do not depend on each other, whatever
+// the codes and values are (an option that redirected how the name fields are read would show here).
+func VerifC01NamesAndOptions(snl, fl, l1, l2 int) {
+	p := &DHCPv4{OpCode: OpcodeBootReply, HWType: iana.HWTypeEthernet, Options: Options{}}
+	sn := verifNonZeroBytes("sname", snl)
+	fn := verifNonZeroBytes("file", fl)
+	p.ServerHostName = string(sn)
+	p.BootFileName = string(fn)
+	var codes []uint8
+	var vals [][]byte
+	for _, l := range []int{l1, l2} {
+		if l < 0 {
+			continue
+		}
+		c := verifU8("code")
+		verifAssume(c >= 1)
+		verifAssume(c <= 254)
+		for _, o := range codes {
+			verifAssume(c != o)
+		}
+		codes = append(codes, c)
+		vals = append(vals, verifBytes("val", l))
+		p.Options[c] = vals[len(vals)-1]
+	}
+	q, err := FromBytes(p.ToBytes())
+	verifAssert(err == nil, "decode-ok")
+	if err != nil {
+		return
+	}
+	verifAssert(verifSameStr(q.ServerHostName, string(sn)), "sname")
+	verifAssert(verifSameStr(q.BootFileName, string(fn)), "file")
+	verifAssert(len(q.Options) == len(codes), "same-number-of-options")
+	for i := range codes {
+		v, ok := q.Options[codes[i]]
+		verifAssert(ok, "option-present")
+		verifAssert(verifSame(v, vals[i]), "option-value")
+	}
+	verifReach("end")
+}
